@@ -11,6 +11,8 @@ BUILT = {
          "trusted: simnet interpreter, SimCrypto, application model; stream totals <= 200 kB, finite fault prefixes"),
  "C02": ("simnet", "liveness as bounded-time safety: finite generated fault prefix then a clean link; event-driven workloads must complete (handshake, every planned stream read and Finished) within a computed virtual-time bound; wedge signatures for known findings",
          "trusted: harness as above; infinite adversarial loss schedules are out of reach; idle timeout disabled"),
+ "C03": ("puppet", "a harness-written hostile peer that authenticates its packets with the connection's SimCrypto keys drives an unmodified endpoint in both roles: generated packets in all three spaces carrying grammar-generated frames (boundary-biased ids, offsets, limits, sequence numbers up to 2^62-1, ACK ranges, NEW_CONNECTION_ID/RETIRE_CONNECTION_ID, PATH_*, ACK_FREQUENCY, DATAGRAM, CRYPTO), raw/unknown/truncated frame bytes, duplicated/skipped/huge packet numbers, other source addresses, floods (PATH_CHALLENGE from 400 addresses, CRYPTO at rising offsets, one-byte stream gaps, CID churn, sparse packet numbers, 200-range ACKs), unauthenticated garbage and mutated genuine datagrams, 25 template violations with RFC-prescribed error class, generated transport parameter lists (valid base plus hostile edits, all encodable widths, duplicates, wrong lengths), in victim configurations with ack-frequency on/off, CID length 0..20, datagrams on/off, small limits; oracles: no panic (overflow included, std-library panics attributed by backtrace), call/step bounds and watchdog, probe-counter and live-heap bounds, wire/application error agreement, defined error code, prescribed class after a template, honest connection on the same endpoint completes with intact data",
+         "trusted: puppet, wire.rs, SimCrypto (rustls sessions cannot be driven by the puppet); error class asserted only where RFC 9000/9221 fixes it; heap bound is a budget (24 MB + 256 x injected bytes), slower growth is not visible"),
  "C04": ("simnet", "an attacker at the link acts on copies of genuine datagrams (replays at any later time incl. the connection-creating Initial, bit flips, truncation/extension, cross-connection CID splices, reset-token suffixes: exact / other CID / one-bit miss); per-frame-type receive counters never exceed the frames contained in distinct genuine packets delivered; twin run without the attacker gives the same final outcome (and the same destinations) ; Reset only for the exact token",
          "trusted: unforgeability of packet protection (ring/rustls or SimCrypto's keyed tag) is assumed; frame accounting needs SimCrypto; timing-level equality is not asserted (extra poll instants legitimately perturb pacing)"),
  "C05": ("simnet", "independent credit ledger kept by the wire observer for the receiver of the credit; every STREAM/RESET_STREAM leaving a sender is checked against stream, connection and stream-count limits that actually reached it; send_window bound via probe",
